@@ -497,6 +497,7 @@ func runC08(c *Ctx) {
 	runC14(c)
 	c.RulePrefix = ""
 	c08SmudgePassesAllNonPointers(c)
+	notAPointerIsNotAnError(c, "R6")
 	c08BlankLines(c)
 
 	// ---- R6: smudge pass-through ------------------------------------------------------------------
